@@ -383,6 +383,12 @@ def run(S):
             S.violation('range-' + lab, 'format_source_range violates `%s`: %s' % (lab, w['what']), dict(api=w, model=info))
         else:
             S.inconclusive.append('range: solver model for `%s` (%r) has no native reproduction over the corpus' % (lab, info))
+    if not found:
+        # the corpus must agree with the solver's verdict on this tree (guards the corpus and its oracle)
+        w = api_sweep(S, 'validation')
+        S.validation['native_corpus'] = 'clean (%d sources x all boundary ranges)' % len(CORPUS) if not w else w['what']
+        if w:
+            S.inconclusive.append('range: the native corpus shows a deviation the solver-decided units do not explain: %s' % w['what'])
     S.assumptions += [
         'assume-guarantee split: (A) decides on real text that the cover search receives the blank-trimmed range ts<=te<=len; (B) assumes exactly that',
         'abstract trees over-approximate parser output: root is Markup, children partition the parent, kinds and error flags arbitrary',
@@ -397,6 +403,7 @@ CORPUS = [
     '#let x = 1\n', '  #let  x  =  (1,2)\n', '= Head\n  - a\n    - b #f( 1 ,2)\n', '$ a + b $ text #{ let y = [*b*]; y }\n',
     '#(\n', 'a #[b #(] c\n', '#let f(x, ..y) = x\n#f(1)[a][b]\n', '/* c */ #import "a": b, c\n', 'é  ü #x.y.z(1)  \n\n  z\n', '',
     ' ', '\n\n', '#{\n  let (a, _) = (1, 2)\n}\n',
+    '$ vec(mat(1,2;3,4), x) $\n', '$ op(delim: "[", cases(a,b;c,d)) $\n', '$ f(a; b)(c; d) $\n',
 ]
 
 
@@ -431,4 +438,9 @@ def api_sweep(S, lab):
                         if e2[1] == '1':
                             return dict(api='Typstyle::format_source_range', source=src, start=a, end=b,
                                         what='splicing the result into %s yields a source with syntax errors' % show(src))
+                        # inside an equation a semicolon is a row separator, never layout: converting the node in another
+                        # lexical mode than the one it stands in loses it
+                        if src.startswith('$') and src.rstrip().endswith('$') and '#' not in src and src.count('$') == 2 and out.count(';') != src.count(';'):
+                            return dict(api='Typstyle::format_source_range', source=src, start=a, end=b, output=out,
+                                        what='formatting %d..%d of %s gives %s: the row separators of the math call are lost (node converted in the wrong lexical mode)' % (a, b, show(src), show(out)))
     return None
